@@ -41,8 +41,13 @@ def f1(ctx):
             b = ctx.facts.one(r"^%s::Arena::%s$" % (fl, name))
             ev, res = ctx.eval(b, no_inline=NOINLINE)
             searches = [e for e in res.log if e["kind"] == "call" and not e["chain"] and re.search(r"::find_(position|prev_and_next)$", e["callee"])]
-            ok = len(searches) == 1 and tag(searches[0]["args"][2]) == "closure"
-            got = closure_cmp(ctx, searches[0]["args"][2][1]) if ok else None
+            # the comparator is a closure, or a reference to one that a helper was handed (`find_position(.., &check)`)
+            carg = searches[0]["args"][2] if len(searches) == 1 else None
+            for _ in range(3):
+                if tag(carg) == "ref":
+                    carg = ev._deref_val(carg)
+            ok = len(searches) == 1 and tag(carg) == "closure"
+            got = closure_cmp(ctx, carg[1]) if ok else None
             # the value searched for: the new segment's data size (insertion) / the requested size (pop)
             yield Ob(key_of("C10-F1", b.path, "comparator"), got == cmpw, "%s searches with %s (want %s)" % (name, got, cmpw), ctx.loc(searches[0]) if searches else b.loc())
             if ok and name.endswith("dealloc"):
@@ -178,47 +183,42 @@ def f4(ctx):
                 return None
             return term_map(canon(t), f)
 
-        acc1 = [r for r in r1.log if r["kind"] == "ret0" and not r["chain"] and r["value"] == const(1)]
-        acc2 = [r for r in r2.log if r["kind"] == "ret0" and not r["chain"] and tag(r["value"]) == "variant" and r["value"][2] == "Some"]
-        ok = len(acc1) == 1 and len(acc2) == 1
-        why = "one accept return each"
-        if ok:
-            # the accept return is reached by a conjunctive chain (every branch on the way has exactly one successor that can still accept), so the
-            # dominating guards are the exact accept condition
-            for b_, acc in ((bv, acc1[0]), (bt, acc2[0])):
-                for x in b_.reachable:
-                    t = b_.blocks[x]["term"]
-                    if t["k"] == "switch" and acc["bb"] in b_.reach(x):
-                        tg = set([bb for _, bb in t["arms"]] + [t["otherwise"]])
-                        if len([y for y in tg if y == acc["bb"] or acc["bb"] in b_.reach(y)]) != 1:
-                            ok = False
-                            why = "%s: the accept return is reachable over two edges of one branch (%s) - not a conjunction" % (b_.name, b_.loc(x))
-        if ok:
-            f1_ = set(strip(f) for f in ctx.facts_of(ev1, acc1[0]))
-            f2_ = set(strip(f) for f in ctx.facts_of(ev2, acc2[0]))
+        # exact accept condition of each function as a DNF: every assignment of the return value contributes the condition of its block - as it is for
+        # `true` / `Some(..)`, conjoined with the returned comparison for `return a >= b` (a `&&` chain ends like that), nothing for `false` / `None`
+        import dnf as D
 
-            def implies(A, B):
-                o = Order(A)
-                miss = []
-                for f in B:
-                    if f in A:
-                        continue
-                    if f[0] == "cmp" and f[1] in ("Le", "Lt", "Ge", "Gt", "Eq"):
-                        a, b2 = f[2], f[3]
-                        good = {"Le": lambda: o.le(a, b2), "Lt": lambda: o.le(add(a, const(1)), b2), "Ge": lambda: o.le(b2, a), "Gt": lambda: o.le(add(b2, const(1)), a),
-                                "Eq": lambda: o.eq(a, b2)}[f[1]]()
-                    elif f[0] == "cmp" and f[1] == "Ne":
-                        good = o.le(add(f[2], const(1)), f[3]) or o.le(add(f[3], const(1)), f[2])
-                    elif f[0] == "discr" and tag(f[1]) == "call" and re.search(r"checked_(sub|add)$", f[1][1]):
-                        good = True    # carried by the comparison it implies (sym.implied_facts)
-                    else:
-                        good = False
-                    if not good:
-                        miss.append(repr(f)[:160])
-                return miss
-            m12, m21 = implies(f1_, f2_), implies(f2_, f1_)
-            ok = not m12 and not m21
-            why = "accept conditions imply each other" if ok else "validate_segment's accept condition does not give %s; try_new_segment's does not give %s" % (m12[:2], m21[:2])
+        def accept_dnf(b_, ev_, r_, is_accept, is_reject):
+            out = []
+            n_acc = 0
+            for r in r_.log:
+                if r["kind"] != "ret0" or r["chain"]:
+                    continue
+                v = r["value"]
+                if is_reject(v):
+                    continue
+                base = D.block_dnf(ev_, r_, b_, r["bb"], lit=strip)
+                if base is None:
+                    return None, 0
+                if is_accept(v):
+                    n_acc += 1
+                    out.extend(base)
+                elif tag(v) in ("cmp", "not", "booland"):
+                    n_acc += 1
+                    ls = frozenset(strip(f) for f in implied_facts([(v, ("eq", 1))]))
+                    out.extend(c | ls for c in base)
+                else:
+                    return None, 0
+            return out, n_acc
+        A, n1 = accept_dnf(bv, ev1, r1, lambda v: v == const(1), lambda v: v == const(0))
+        B, n2 = accept_dnf(bt, ev2, r2, lambda v: tag(v) == "variant" and v[2] == "Some", lambda v: tag(v) == "variant" and v[2] == "None")
+        ok = A is not None and B is not None and n1 >= 1 and n2 >= 1
+        why = "accept returns: %d / %d" % (n1, n2)
+        if ok:
+            A, B = D.dnf_simplify(A), D.dnf_simplify(B)
+            ab, ba = D.dnf_implies(A, B), D.dnf_implies(B, A)
+            ok = ab and ba
+            why = "accept conditions imply each other (%d / %d disjunct(s))" % (len(A), len(B)) if ok else \
+                  "validate_segment accepts %s try_new_segment does%s" % ("where" if not ab else "not everywhere", " not" if not ab else "")
         yield Ob(key_of("C10-F4", "%s::validate_segment|try_new_segment" % fl, "same-conditions"), ok, why, bv.loc())
 
 
